@@ -171,14 +171,26 @@ struct SrcFamily {
     }
     srcs.push_back(s);
   }
+  // tables hold strictly increasing keys; a user-defined source may yield the same key several times (non-decreasing)
   bool valid() const {
     if (srcs.size() > 12) return false;
     for (auto &s : srcs) {
       if (s.kind < 0 || s.kind > 1) return false;
-      for (size_t i = 1; i < s.keys.size(); i++)
-        if (bcmp3(s.keys[i - 1], s.keys[i]) >= 0) return false;
+      for (size_t i = 1; i < s.keys.size(); i++) {
+        int c = bcmp3(s.keys[i - 1], s.keys[i]);
+        if (c > 0 || (c == 0 && s.kind != 1)) return false;
+      }
     }
     return true;
+  }
+  bool has_dups_within_a_source() const {
+    for (auto &s : srcs)
+      for (size_t i = 1; i < s.keys.size(); i++)
+        if (s.keys[i - 1] == s.keys[i]) return true;
+    return false;
+  }
+  void dedupe_within_sources() {
+    for (auto &s : srcs) s.keys.erase(std::unique(s.keys.begin(), s.keys.end()), s.keys.end());
   }
   KVs content(size_t i) const {
     KVs kv;
@@ -225,6 +237,12 @@ inline SrcFamily gen_family(int max_sources = 6, bool allow_user = true) {
       ks.insert(k);
     }
     sp.keys.assign(ks.begin(), ks.end());
+    if (sp.kind == 1 && !sp.keys.empty() && chance(35)) {
+      // a user-defined source that yields some keys more than once (e.g. what a merger without a merge function looks like)
+      int extra = pick(1, 3);
+      for (int i = 0; i < extra; i++) sp.keys.push_back(sp.keys[(size_t)pick(0, (int)sp.keys.size() - 1)]);
+      std::stable_sort(sp.keys.begin(), sp.keys.end(), BLess());
+    }
     f.srcs.push_back(sp);
   }
   return f;
